@@ -5,6 +5,7 @@ pub mod common;
 
 pub mod c01;
 pub mod c01m;
+pub mod c02;
 pub mod c04;
 pub mod c05;
 pub mod c06;
@@ -28,6 +29,7 @@ pub fn dispatch(a: &ShardArgs) -> Result<(), String> {
     super::refcodec::app::self_test()?;
     match a.check.as_str() {
         "c01" => c01::run(a),
+        "c02" => c02::run(a),
         "c03" => evt::run(a, "c03", "c03", 8000),
         "c13" => evt::run(a, "c13", "c13", 8000),
         "c04" => c04::run(a),
